@@ -38,6 +38,14 @@ func pinned() []Case {
 		v("nested-first", `{p1 {p2 c d} a b}`, P("p1", P("p2", "c", "d"), "a", "b")),
 		v("adjacent-statements", `{1}{p1 x}{k}`, M(1)+P("p1", "x")+K("k")),
 		v("quoted-blank-arg", `{p1 " " "	"}`, P("p1", " ", "\t")),
+		// \n \t \r inside quoted literal arguments give control characters at every call depth
+		v("ctrl-escape-depth1", `{p1 "a\nb" c}`, P("p1", "a\nb", "c")),
+		v("ctrl-escape-depth1-tab", `{p1 "a\tb" {0}}`, P("p1", "a\tb", M(0))),
+		v("ctrl-escape-depth2", `{p1 {p1 "a\nb"} c}`, P("p1", P("p1", "a\nb"), "c")),
+		v("ctrl-escape-depth2-tab", `{p1 {p1 "a\tb" {0}} c}`, P("p1", P("p1", "a\tb", M(0)), "c")),
+		v("ctrl-escape-depth2-cr", `x{p1 {p1 "\r"}}y`, "x"+P("p1", P("p1", "\r"))+"y"),
+		v("ctrl-escape-depth3", `{p1 1 {p1 2 {p1 "l1\nl2" {1}}}}`, P("p1", "1", P("p1", "2", P("p1", "l1\nl2", M(1))))),
+		v("ctrl-escape-depth4", `{p0 {p1 {p2 {p3 "\t\r\n"}}}}`, P("p0", P("p1", P("p2", P("p3", "\t\r\n"))))),
 		// a lone word / integer is a lookup; as an argument it is a literal
 		v("integer-argument", `{p1 5}`, P("p1", "5")),
 		v("integer-lookup", `{5}`, M(5)),
